@@ -1446,16 +1446,26 @@ func gridLayout(context *layoutContext, box_ Box, bottomSpace pr.Float, skipStac
 	hasBroken := false
 	for i := skipRow; i < len(rowsPositions); i++ {
 		rowY := rowsPositions[i]
-		// TODO: Check that page is not empty.
 		if context.overflowsPage(bottomSpace, rowY-skipHeight) {
-			if i == 0 {
+			// the row above does not fit : it is the first row of the next page
+			breakRow := i - 1
+			if pageIsEmpty && breakRow <= skipRow {
+				// the first row of an empty page is placed even if it
+				// overflows, otherwise the same row would be resumed for ever
+				breakRow = skipRow + 1
+				if breakRow >= len(rowsPositions) {
+					continue
+				}
+			} else if i == 0 {
 				return nil, blockLayout{nil, nil, tree.PageBreak{Break: "any"}, false}
+			} else if breakRow < skipRow {
+				breakRow = skipRow
 			}
-			resumeRow = i - 1
-			resumeAt = tree.ResumeStack{i - 1: nil}
+			resumeRow = breakRow
+			resumeAt = tree.ResumeStack{breakRow: nil}
 			for _, child := range children {
 				_, y, _, _ := childrenPositions[child].unpack()
-				if skipRow <= y && y <= i-2 {
+				if skipRow <= y && y <= breakRow-1 {
 					thisPageChildren = append(thisPageChildren, child)
 				}
 			}
